@@ -40,6 +40,7 @@ type CProg struct {
 	Free    bool             `json:"free"`    // free-running stress: no gates, random yields
 	Seed    uint64           `json:"seed"`
 	Block   int              `json:"blockms"` // free mode: hold the writer inside the transport for this long
+	Scale   int              `json:"scale"`   // free mode: WriteMessage data payloads are n*scale bytes (direct-write path, many frames)
 }
 
 type cthread struct {
@@ -396,14 +397,18 @@ func (r *concRun) exec() {
 				case "past":
 					dl = time.Now().Add(-time.Second)
 				}
-				data := wire.TextPay(p.Seed, id, op.N)
+				nbytes := op.N
+				if p.Free && p.Scale > 1 && op.API == "WM" && (op.Type == 1 || op.Type == 2) {
+					nbytes = op.N * p.Scale
+				}
+				data := wire.TextPay(p.Seed, id, nbytes)
 				if op.Type == 8 && op.N >= 2 {
 					data = wire.CloseBody(1000, wire.TextPay(p.Seed, id, op.N-2))
 				}
 				r.mu.Lock()
 				r.curCall[th.name] = cc
 				r.mu.Unlock()
-				call := Ev{"e": "Call", "t": th.name, "api": op.API, "type": op.Type, "n": op.N, "dl": dlOr(op.DL), "m": id}
+				call := Ev{"e": "Call", "t": th.name, "api": op.API, "type": op.Type, "n": nbytes, "dl": dlOr(op.DL), "m": id}
 				t0 := time.Now()
 				switch op.API {
 				case "WM":
